@@ -45,6 +45,10 @@ async fn one_schedule(r: &mut Rng, n: u32, cap: u64, p: Profile) -> String {
                     opts.push((5, format!("t:{}", i)));
                     opts.push((10, format!("w:{}:{}", i, next_payload)));
                     opts.push((3, format!("lf:{}", i)));
+                    let cm = c.commit_of(i);
+                    if cm > 0 {
+                        opts.push((6, format!("ac:{}:{}", i, cm)));
+                    }
                 }
                 'D' => opts.push((10, format!("up:{}", i))),
                 _ => {}
@@ -79,6 +83,7 @@ async fn one_schedule(r: &mut Rng, n: u32, cap: u64, p: Profile) -> String {
         }
         for (l, q) in c.open_streams() {
             opts.push((p.faults, format!("se:{}:{}", l, q)));
+            opts.push((p.faults, format!("sc:{}:{}", l, q)));
         }
         // malformed stream: events that are not enabled
         opts.push((1, format!("a:{}", 900 + r.below(50))));
